@@ -26,8 +26,10 @@ def _translate(run):
     try:
         return settings2lean.main(common.REPO)
     except settings2lean.TranslateError as e:
-        run.broke("proof", "tools/settings2lean.py cannot translate the sources: %s" % e)
-        return None
+        run.broke("proof", "tools/settings2lean.py cannot translate the sources (the generated table and the theorems about it are stale): %s" % e)
+    except Exception as e:  # a source the translator was not written for
+        run.broke("proof", "tools/settings2lean.py stopped on the sources: %s: %s" % (type(e).__name__, e))
+    return None
 
 
 def _violation(run, site, klass, what, case, cap=3):
@@ -62,6 +64,8 @@ class Parser:
 
     def model(self, variant, entries, real, info):
         """queue a model request for a case whose real outcome is `real`"""
+        if self.tab is None:
+            return
         if real.kind == "exit" and real.args is None and info.get("argv") is not None:
             return  # argparse rejected the command line: nothing reaches the settings parser
         if real.kind == "exc" and real.where == "read_file":
@@ -237,6 +241,96 @@ def _settings_pool(tab):
     return pool, missing
 
 
+def _stage(run, name, fn, *args):
+    """run one stage; an exception (of /repo on well-formed input, or of this tooling on a changed source) is
+    recorded as broken and the remaining stages still run"""
+    import traceback
+
+    try:
+        return fn(*args)
+    except SystemExit:
+        raise
+    except common.Broken as b:
+        run.broke("harness", "stage %s: %s" % (name, b.what), b.detail)
+    except Exception as e:
+        tb = traceback.extract_tb(e.__traceback__)
+        repo = os.path.abspath(common.REPO) + os.sep
+        in_repo = [f for f in tb if os.path.abspath(f.filename).startswith(repo)]
+        f = (in_repo or tb)[-1]
+        run.broke("impl-exception" if in_repo else "harness",
+                  "stage %s stopped: %s: %s at %s:%d (%s)" % (name, type(e).__name__, e, os.path.basename(f.filename), f.lineno, f.name))
+    return None
+
+
+def documented_route_oracle(run, tmp):
+    """Both routes on the real parser for every option <-> tag equivalence of doc/command-options.md (plus the
+    hand-written list of undocumented ones).  Uses the docs, the real argparse parser and the example values only —
+    not the generated table — so it still runs when the translator or the Lean build breaks on a changed source."""
+    import re
+
+    rng = run.rng
+    thorough = run.tier == "thorough"
+    P = Parser(run, None, tmp)
+    pairs = list(U.EXTRA_EQUIV)
+    try:
+        md = open(os.path.join(common.REPO, "doc", "command-options.md")).read()
+        for m in re.finditer(r"^- ((?:`-[^`]+`(?:, )?)+)\s+\(([^)]*)\)", md.replace("\n  ", " "), re.M):
+            flags = re.findall(r"`(-[^`]+)`", m.group(1))
+            for t in re.findall(r"`([^`]+)`", m.group(2)):
+                tag, _, val = t.partition("=")
+                if re.fullmatch(r"[A-Z][A-Z0-9_]*", tag.strip()):
+                    for f in flags:
+                        pairs.append((f.replace("_", "-"), tag.strip().lower(), val.strip() or None))
+    except OSError as e:
+        run.broke("harness", "doc/command-options.md cannot be read: %s" % e)
+    if len(pairs) < 60:
+        run.broke("harness", "only %d option/tag equivalences found in doc/command-options.md" % len(pairs))
+    for variant in ("phonopy", "load"):
+        acts = U.parser_actions(variant)
+        for flag, tag, docval in pairs:
+            a = acts.get(flag)
+            if a is None:
+                continue
+            numeric = a.type in (int, float)
+            if a.nargs == 0:
+                cases = [([flag], docval or ".TRUE.")]
+            else:
+                vals = [v for v in U.VALUES.get(tag, []) if v.lower() not in (".true.", ".false.")]
+                zeros = [v for v in vals if numeric and _is_zero(v)]
+                rest = [v for v in vals if v not in zeros]
+                rng.shuffle(rest)
+                vals = zeros[:1] + rest[: (4 if thorough else 2)]
+                cases = [([flag] + (v.split() if a.nargs == "+" else [v]), v) for v in vals]
+            for argv, text in cases:
+                conf_lines = ["%s = %s" % (tag.upper(), text)]
+                rf = P.real(variant, lines=conf_lines, argv=[])
+                ro = P.real(variant, lines=None, argv=argv)
+                run.case(("doc-pair", variant, flag, tag, text), nontrivial=True)
+                run.count("oracle documented equivalence", section="oracle")
+                d = rf.diff(ro)
+                if d and docval is not None and all(isinstance(v, list) and all(isinstance(x, str) for x in v) and v[0].lower() == v[1].lower() for v in d.values()):
+                    d = None  # `FC_CALCULATOR = ALM` keeps the spelling of the file, `--alm` writes "alm"; the name is lower-cased where it is used
+                if not d:
+                    continue
+                case = dict(variant=variant, conf=conf_lines, argv=argv, differing=d)
+                if rf.kind == "exc" and rf.where == "read_file":
+                    _violation(run, SITE, "conf-value-with-equals-crashes" if "=" in text else "conf-file-crashes",
+                               "conf file `%s` raises %s; the option `%s` is accepted" % (conf_lines[0], rf.detail, " ".join(argv)), case)
+                elif numeric and _is_zero(text):
+                    _violation(run, SITE, "falsy-numeric-option-dropped", "`%s` and `%s` give different settings: %s" % (" ".join(argv), conf_lines[0], str(d)[:300]), case)
+                else:
+                    _violation(run, SITE, "option-and-tag-differ",
+                               "`%s` is the option form of `%s`, but `%s` and `%s` give different settings: %s" % (
+                                   flag, tag.upper(), " ".join(argv), conf_lines[0], str(d)[:300]), case)
+
+
+def _is_zero(text):
+    try:
+        return float(text) == 0
+    except ValueError:
+        return False
+
+
 def parser_checks(run, tb, tmp):
     rng = run.rng
     thorough = run.tier == "thorough"
@@ -312,33 +406,6 @@ def parser_checks(run, tb, tmp):
                         else:
                             viol("route-mismatch", "`%s` and `%s` give different settings: %s" % (conf_lines[0], " ".join(argv), str(d)[:300]), case)
     run.cov["correspondence"]["rows"] = nrows
-
-    # ------------------------------------------------------------------ the documented equivalences (doc/command-options.md), independent of the code's table
-    for variant in ("phonopy", "load"):
-        for flag, tag, docval in tb["doc_pair_values"]:
-            rows = [a for a in tb["argparse"] if a["variants"] & U.VBIT[variant] and flag in [__import__("settings2lean").norm_flag(f) for f in a["flags"]]]
-            if not rows:
-                continue
-            a = rows[0]
-            if a["action"] in ("store_true", "store_false"):
-                cases = [([flag], docval or ".TRUE.")]
-            else:
-                vals = [v for v in U.VALUES.get(tag, []) if not tab.is_bool_text(tag, v)]
-                rng.shuffle(vals)
-                cases = [([flag] + (v.split() if a["nargs"] == "+" else [v]), v) for v in vals[: (4 if thorough else 2)]]
-            for argv, text in cases:
-                conf_lines = ["%s = %s" % (tag.upper(), text)]
-                rf = P.real(variant, lines=conf_lines, argv=[])
-                ro = P.real(variant, lines=None, argv=argv)
-                run.case(("doc-pair", variant, flag, tag, text), nontrivial=True)
-                run.count("oracle documented equivalence", section="oracle")
-                d = rf.diff(ro)
-                if d and docval is not None and all(isinstance(v, list) and all(isinstance(x, str) for x in v) and v[0].lower() == v[1].lower() for v in d.values()):
-                    d = None  # `FC_CALCULATOR = ALM` keeps the spelling of the file, `--alm` writes "alm"; the name is lower-cased where it is used
-                if d and not (rf.kind == "exc" and rf.where == "read_file"):
-                    viol("falsy-numeric-option-dropped" if _is_numeric_zero(tab, tag, text) else "documented-equivalence-fails",
-                         "doc/command-options.md: `%s` is equivalent to `%s`, but `%s` and `%s` give different settings: %s" % (
-                             flag, tag.upper(), " ".join(argv), conf_lines[0], str(d)[:300]), dict(variant=variant, conf=conf_lines, argv=argv, differing=d))
 
     # malformed values: both routes must reject (or both accept)
     for variant in ("phonopy", "load"):
@@ -613,16 +680,18 @@ def main(run):
         "pypolymlp / SSCHA branches of main are outside the run-mode model (use_pypolymlp = False)",
         "phonopy-load's default force-constants calculator (symfc) is not installed: load workflows run with --fc-calc traditional; the default rule is checked on the settings only",
     ]
-    if tb is None:
-        return
     tmp = tempfile.mkdtemp(prefix="c18-", dir="/tmp")
     cwd = os.getcwd()
     try:
-        P, tab = parser_checks(run, tb, tmp)
-        _run_model(run, P, tab)
         from . import c18_flow as W
 
-        W.fc_calculator_checks(run)
+        # the route oracle that needs neither the generated table nor the Lean side runs first
+        _stage(run, "documented route oracle", documented_route_oracle, run, tmp)
+        if tb is not None:
+            res = _stage(run, "settings parser vs model", parser_checks, run, tb, tmp)
+            if res is not None:
+                _stage(run, "Lean model of the parser", _run_model, run, res[0], res[1])
+        _stage(run, "fc-calculator rule", W.fc_calculator_checks, run)
         crystals = [("nacl_prim", (2, 2, 2)), ("cscl", (2, 2, 1))]
         if thorough:
             crystals += [("hcp", (2, 2, 1)), ("zincblende_prim", (2, 2, 2)), ("bcc", (2, 2, 2))]
@@ -631,11 +700,11 @@ def main(run):
             fl = W.Flow(run, name + "-" + "x".join(map(str, dim)), dim, tmp)
             fl.cell, _ = __import__("harness.gen", fromlist=["make_cell"]).make_cell(name)
             flows.append(fl)
-            try:
-                fl.go(run.rng, thorough)
-            finally:
-                os.chdir(tmp)
-        W.decision_checks(run, tmp, flows[0], run.rng, thorough)
+            _stage(run, "workflow " + fl.name, fl.go, run.rng, thorough)
+            os.chdir(tmp)
+        _stage(run, "calculator named by the yaml only", W.calculator_flows, run, tmp, run.rng, thorough)
+        os.chdir(tmp)
+        _stage(run, "run-mode decision", W.decision_checks, run, tmp, flows[0], run.rng, thorough)
     finally:
         os.chdir(cwd)
         shutil.rmtree(tmp, ignore_errors=True)
